@@ -194,3 +194,6 @@ Definition judge_ties (c : case) : Z :=
   if negb (key_inj_ok prints store hashes) then 5
   else if negb (has_tie store hashes) then 6
   else judge c.
+
+(* one entry point for a mixed list of cases: (true, c) is judged by [judge_ties], (false, c) by [judge] *)
+Definition judge_sel (tc : bool * case) : Z := if fst tc then judge_ties (snd tc) else judge (snd tc).
